@@ -561,6 +561,23 @@ fn boxed(ctx: &mut Ctx) {
             judge(ctx, "EFIMemoryMapTag::new_from_map", "", got, &want, vec![], false);
         });
     }
+    // EFI maps with the stride real firmware reports (48) and with 40, read back through the descriptor iterator
+    // (remaining length at every step)
+    for ds in [48u32, 40, 56] {
+        for n in [1usize, 5, 6, 8, 10, 12] {
+            leaf!(ctx, "EFIMemoryMapTag::new_from_map", format!("{} descriptors at stride {} read back", n, ds), |ctx| {
+                let mut map = vec![];
+                for i in 0..n {
+                    let mut d = bi::enc_efi_desc(1 + i as u32 % 7, 0x10_0000 * i as u64, 0, 16 + i as u64, 0xF);
+                    d.resize(ds as usize, 0);
+                    map.extend(d);
+                }
+                let want = bi::enc_efi_mmap(ds, 1, &map);
+                let got = ctx.call("new", || { let t = EFIMemoryMapTag::new_from_map(ds, 1, &map); built_bi(ctx_dummy(), &*t, &|b, t| battery::efi_mmap(b, t)) });
+                judge(ctx, "EFIMemoryMapTag::new_from_map", "", got, &want, decode::tag(bi::EFI_MMAP, &want, true, true), false);
+            });
+        }
+    }
     // a full ELF table with names read back
     for layout in [64u32, 40] {
         leaf!(ctx, "ElfSectionsTag::new", format!("two ELF{} entries", if layout == 64 { 64 } else { 32 }), |ctx| {
@@ -652,7 +669,7 @@ fn boxed(ctx: &mut Ctx) {
             }
         }
         // texts as boot loaders pass them: a constructor that tidies them up (path, quotes, whitespace) is not spec-exact
-        for t in ["/boot/initrd.img root=/dev/ram0 quiet", "(hd0,1)/boot/kernel.elf --serial com1", "\"quoted module\" arg", "'single' arg", "console=ttyS0,115200n8 ", " root=/dev/sda1", "GRUB 2.06", "a  b", "/", "/ x", "x /y z", "key=\"v w\"", "C:\\EFI\\boot\\bootx64.efi arg", "tab\tseparated", "line1\nline2", "\"\"", "''", "  "] {
+        for t in ["/boot/initrd.img root=/dev/ram0 quiet", "(hd0,1)/boot/kernel.elf --serial com1", "\"quoted module\" arg", "'single' arg", "console=ttyS0,115200n8 ", "console=ttyS0 quiet\n", "quiet\r\n", "\n", "\t", " root=/dev/sda1", "GRUB 2.06", "a  b", "/", "/ x", "x /y z", "key=\"v w\"", "C:\\EFI\\boot\\bootx64.efi arg", "tab\tseparated", "line1\nline2", "\"\"", "''", "  "] {
             rel_texts.push(t.to_string());
         }
         {
